@@ -66,6 +66,58 @@ def combos(inputs, over, mode):
     return [{**base, **dict(zip(over, row))} for row in rows]
 
 
+def mutable_default_part(ctx, dist):
+    """Items whose node mutates the object it receives as its SIGNATURE DEFAULT (a list / dict / nested container): every item
+    of a map -- through runner.map and through a mapping GraphNode, zip and product, both runners -- is a run of its own, so its
+    result equals what a single run on that combination returns and no item sees what another item appended."""
+    import asyncio
+    from hypergraph import AsyncRunner, Graph, SyncRunner
+    from hypergraph.nodes import FunctionNode
+    rng = ctx.rng
+    n = 0
+    for _ in range(ctx.n(24, 200)):
+        shape = rng.choice(["list", "dict", "tuple_of_list"])
+        default = {"list": [], "dict": {"log": []}, "tuple_of_list": ([], "v")}[shape]
+        inner = {"list": (lambda d: d), "dict": (lambda d: d["log"]), "tuple_of_list": (lambda d: d[0])}[shape]
+        is_async = rng.random() < 0.5
+
+        def body(x, y=0, acc=default):
+            inner(acc).append((x, y))
+            return list(inner(acc))
+        item = Graph([FunctionNode(body, name="body", output_name="r")], name="item")
+        xs = [rng.randint(0, 9) for _ in range(rng.randint(1, 4))]
+        two = rng.random() < 0.4
+        mode = rng.choice(["zip", "product"]) if two else "zip"
+        ys = [rng.randint(0, 9) for _ in range(len(xs) if mode == "zip" else rng.randint(1, 3))]
+        over = ["x", "y"] if two else ["x"]
+        inputs = {"x": xs, "y": ys} if two else {"x": xs}
+        combos_ = (list(zip(xs, ys)) if mode == "zip" else list(itertools.product(xs, ys))) if two else [(x, 0) for x in xs]
+        expected = [[c] for c in combos_]          # what a single run on that combination returns: the default plus its own entry
+        via = rng.choice(["runner.map", "node"])
+        case = {"default_shape": shape, "async": is_async, "via": via, "over": over, "mode": mode, "inputs": inputs}
+        try:
+            if via == "runner.map":
+                if is_async:
+                    got = [r["r"] for r in asyncio.run(AsyncRunner().map(item, inputs, map_over=over, map_mode=mode,
+                                                                           max_concurrency=rng.choice([None, 1, 2])))]
+                else:
+                    got = [r["r"] for r in SyncRunner().map(item, inputs, map_over=over, map_mode=mode)]
+            else:
+                outer = Graph([item.as_node().map_over(*over, mode=mode)])
+                got = (asyncio.run(AsyncRunner().run(outer, inputs)) if is_async else SyncRunner().run(outer, inputs))["r"]
+        except Exception as e:  # noqa: BLE001
+            ctx.violation("oracle", f"mapping items with a mutable {shape} default raised {type(e).__name__}: {e}", case=case)
+            continue
+        n += 1
+        dist["mutable_default_items"] = dist.get("mutable_default_items", 0) + 1
+        if got != expected:
+            ctx.violation("oracle", f"mapped items over a node with a mutable signature default: got {got}, single runs give {expected} "
+                          "(an item saw what another item put into the default)", case=case)
+        if inner(default):
+            ctx.violation("oracle", f"the signature default itself was modified: {default}", case=case)
+    return n
+
+
 def run(ctx):
     rng = ctx.rng
     N = Names()
@@ -166,6 +218,7 @@ def run(ctx):
                 nontrivial.add(canon(case))
         if len(samples) < 2:
             samples.append({k: case[k] for k in ("over", "mode", "inputs", "runner", "error_handling", "as_node")} | {"graph": g["nodes"]})
+    n_eval += mutable_default_part(ctx, dist)
     res = batch.run()
     if res["error"]:
         ctx.violation("harness", res["error"])
@@ -176,7 +229,7 @@ def run(ctx):
         rule="item graphs (plain / failing items / items taking different branches / chains) mapped over 1-3 parameters, list lengths 0-4, "
              "zip and product, broadcast values, unequal zip lengths, caller dicts in another key order than map_over; through runner.map "
              "(async: max_concurrency None/1/2/3 under adversarial completion orders) and through a mapping GraphNode (continue / raise, "
-             "renamed mapped input); non-trivial = at least two combinations",
+             "renamed mapped input); plus (oracle only) items whose node mutates its list / dict / tuple-of-list signature default, via runner.map and a mapping GraphNode; non-trivial = at least two combinations",
         distribution=dist, samples=samples, traces_validated_against_impl=n_eval, disagreements_checked=res["n"])
 
 
